@@ -14,7 +14,7 @@ import (
 func init() {
 	register(Property{
 		ID:          "C02",
-		Explanation: "Decided statically over every path (= every fault point): R1 every open/create of the destination is dominated by the success edge of go/parser.ParseFile on the assembled source and by the non-empty edge of the body test (an unparseable or empty rendering never opens/truncates the file); R2 in the per-package function no file effect, no call that reaches one and no registration of a file for writing is reachable from the error edge of any failing step, and no path leads from a write or removal back to a generator or deferred-callback invocation (all generation precedes all writing); R3 generator and deferred-callback errors are returned as fmt.Errorf with %w carrying the generator's Name(), the package path and the error; R4 error discipline on the pipeline - every error result is tested and, on its non-nil edge, every return carries a value derived from it, unless the path passed errors.Is(err, ErrSkip/ErrIgnore) (the only swallowed sentinels) or a reviewed classifier (os.IsNotExist before the create-retry; a missing gengo.sum means regenerate); and 'success implies written': the file writer has no path that returns a nil error after the non-empty test without passing the write; R5 gengo.sum: Save is a plain call in Execute, outside the package loop, unreachable from the per-package error edge, dominated by the loop's exit, and the package iterator stops early only when its consumer does. R6 no recover() on the generation path unless the recovering closure stores a non-nil error in a named result of the function it is deferred in. A5 every index and count in the file writer and its unexported helpers is bounded - the context lines of a syntax error are indexed below the parser's 1-based line number of the very source that was split (reviewed fact T8), so the failure path returns its error instead of panicking. R1 covers every effect of the writer that can change what is on disk (Remove, Rename, Truncate, Chmod next to open/create). R7 iterator protocol (A11): for every call of a push iterator's yield in the library, no call of the same yield is reachable from an edge on which it answered false (or from the call when the answer is dropped) - a violation makes range-over-func panic while Execute's loop is being left with the error. R8 the dispatchers treat only the sentinels as success and return every other generator error (C07.R5). R9 = C06.R5: every callback handed to Defer is kept and run. NOT decided: byte-identity of the previous file (decided as 'no file effect reachable on the failure path'); a process killed inside format.Node after O_TRUNC leaves a short file (documented gap: the property's crash clause only demands that gengo.sum stays untouched, which R5 decides). Round 8: R10 no deferred closure of a function on the generation path clears the function's named error result.",
+		Explanation: "Decided statically over every path (= every fault point): R1 every open/create of the destination is dominated by the success edge of go/parser.ParseFile on the assembled source and by the non-empty edge of the body test (an unparseable or empty rendering never opens/truncates the file); R2 in the per-package function no file effect, no call that reaches one and no registration of a file for writing is reachable from the error edge of any failing step, and no path leads from a write or removal back to a generator or deferred-callback invocation (all generation precedes all writing); R3 generator and deferred-callback errors are returned as fmt.Errorf with %w carrying the generator's Name(), the package path and the error; R4 error discipline on the pipeline - every error result is tested and, on its non-nil edge, every return carries a value derived from it, unless the path passed errors.Is(err, ErrSkip/ErrIgnore) (the only swallowed sentinels) or a reviewed classifier (os.IsNotExist before the create-retry; a missing gengo.sum means regenerate); and 'success implies written': the file writer has no path that returns a nil error after the non-empty test without passing the write; R5 gengo.sum: Save is a plain call in Execute, outside the package loop, unreachable from the per-package error edge, dominated by the loop's exit, and the package iterator stops early only when its consumer does. R6 no recover() on the generation path unless the recovering closure stores a non-nil error in a named result of the function it is deferred in. A5 every index and count in the file writer and its unexported helpers is bounded - the context lines of a syntax error are indexed below the parser's 1-based line number of the very source that was split (reviewed fact T8), so the failure path returns its error instead of panicking. R1 covers every effect of the writer that can change what is on disk (Remove, Rename, Truncate, Chmod next to open/create). R7 iterator protocol (A11): for every call of a push iterator's yield in the library, no call of the same yield is reachable from an edge on which it answered false (or from the call when the answer is dropped) - a violation makes range-over-func panic while Execute's loop is being left with the error. R8 the dispatchers treat only the sentinels as success and return every other generator error (C07.R5). R9 = C06.R5: every callback handed to Defer is kept and run. NOT decided: byte-identity of the previous file (decided as 'no file effect reachable on the failure path'); a process killed inside format.Node after O_TRUNC leaves a short file (documented gap: the property's crash clause only demands that gengo.sum stays untouched, which R5 decides). Round 8: R10 no deferred closure of a function on the generation path clears the function's named error result. Round 9: R11 = C08.R1 (a package is skipped only when its recorded and current sums are equal).",
 		Assumptions: commonAssumptions,
 		Run:         runC02,
 	})
